@@ -16,7 +16,8 @@ import (
 func c03Decl(i int) *decl.Decl {
 	verbose := &decl.Opt{Field: "Verbose", Short: "v", Long: "verbose", Type: decl.TBools}
 	str := &decl.Opt{Field: "Str", Short: "s", Long: "str", Type: decl.TString}
-	top := &decl.Cmd{Name: "app", Opts: []*decl.Opt{verbose, str}}
+	onoff := &decl.Opt{Field: "Color", Long: "color", Type: decl.TOnOff} // bool-kinded, but takes an argument
+	top := &decl.Cmd{Name: "app", Opts: []*decl.Opt{verbose, str, onoff}}
 	pa := func(n string, t *decl.Type) *decl.PosArg { return &decl.PosArg{Field: n, Type: t} }
 	cmd := func() *decl.Cmd {
 		return &decl.Cmd{Field: "Cmd", Name: "cmd", Exec: true, Opts: []*decl.Opt{{Field: "C", Short: "c", Long: "cflag", Type: decl.TBool}}}
@@ -57,7 +58,7 @@ func c03Decl(i int) *decl.Decl {
 const c03NDecl = 10
 
 var c03Units = [][]string{
-	{""}, {"-"}, {"--"}, {"---x"}, {"-u"}, {"--unk=1"}, {"-vu"}, {"w"}, {"z"}, {"-v"}, {"-s", "val"}, {"cmd"}, {"sub"}, {"7"},
+	{""}, {"-"}, {"--"}, {"---x"}, {"-u"}, {"--unk=1"}, {"-vu"}, {"w"}, {"z"}, {"-v"}, {"-s", "val"}, {"cmd"}, {"sub"}, {"7"}, {"--color", "on"}, {`"q"`},
 }
 
 func isSubsequence(sub, full []string) bool {
@@ -100,10 +101,23 @@ func init() {
 		if c.Thorough {
 			maxDepth = 5
 		}
-		n := c.Choose(maxDepth + 1)
+		n := c.Choose(maxDepth + 2)
 		var argv []string
-		for i := 0; i < n; i++ {
-			argv = append(argv, c03Units[c.Choose(len(c03Units))]...)
+		if n == maxDepth+1 {
+			// beyond the depth bound, thin probes: a head unit, then one token repeated many times (batches after -- / a non-option)
+			head := c03Units[c.Choose(len(c03Units))]
+			tail := c03Units[c.Choose(len(c03Units))]
+			reps := []int{7, 8, 9, 17}[c.Choose(4)]
+			argv = append(argv, "w")
+			argv = append(argv, head...)
+			for i := 0; i < reps; i++ {
+				argv = append(argv, tail...)
+			}
+			c.Hit("long-run")
+		} else {
+			for i := 0; i < n; i++ {
+				argv = append(argv, c03Units[c.Choose(len(c03Units))]...)
+			}
 		}
 		key := fmt.Sprintf("d%d/o%d", di, oi)
 		d := cache[key]
@@ -193,7 +207,7 @@ func init() {
 		ShardDepth: 3,
 		Body:       body,
 		Rule: "10 declarations (positional layouts none/1/2/1+rest/int, required or optional or nested executable commands with own positionals) x all 8 subsets of {PassDoubleDash, PassAfterNonOption, IgnoreUnknown} " +
-			"x {struct tags | API+Execute | API+CommandHandler} x every sequence of <= 4 (quick) / <= 5 (thorough) units over 14 tokens ('', -, --, ---x, unknown short/long/cluster, repeated plain words, known flag, option+value, command words, a number); " +
+			"x {struct tags | API+Execute | API+CommandHandler} x every sequence of <= 4 (quick) / <= 5 (thorough) units over 16 units ('', -, --, ---x, unknown short/long/cluster, repeated plain words, known flag, option+value, a bool-kinded Unmarshaler option + value, a token that is a quoted Go literal, command words, a number), plus beyond that bound [w, unit, unit' x {7,8,9,17}]; " +
 			"oracle = CLM remaining arguments, plus (independent of the CLM) remaining arguments must be a subsequence of argv; also compared with what Execute / CommandHandler received and with the positional fields",
 		Assumptions:  []string{"only vectors that both the model and the parser accept are compared (rejections belong to C04/C07/C08)"},
 		RequiredHits: []string{"compared", "nonempty-rest", "class:terminator", "class:ignored-unknown", "class:pass-after-non-option", "exec-args-compared"},
